@@ -19,7 +19,7 @@ returns every entry for requeueing; each step of retire_extents poisons on error
 ensure_writable dominates every raw write / fsync; write_indeterminate is only set by the reviewed functions; the worker's
 error reaches force_flush's caller and flush_all. Not decided: the recovered state after a given fault sequence.
 """
-DECIDED = ["no discarded storage error", "failure arms reach scrub / quarantine / poison and requeue all entries",
+DECIDED = ["a scrubbed run is released with the sum of its members' own extent lengths", "no discarded storage error", "failure arms reach scrub / quarantine / poison and requeue all entries",
            "poisoned device is unwritable", "errors propagate to flush()"]
 NOT_DECIDED = ["the recovered state after a given fault sequence", "that a later flush succeeds once the device works again"]
 ASSUMPTIONS = ["ShuttingDown is the only error add_write/add_replacement can return (FIELDW on WriteBuffer.shutdown in C01)"]
